@@ -51,7 +51,7 @@ def cases(tier, seed):
             for b in ('infinite', 'obc', 'cylinder'):
                 for what in ('nn', 'index', 'lists'):
                     out.append({'id': f'trifull-{nx}x{ny}-{b}-{what}', 'kind': 'square', 'geom': ['trifull', nx, ny, b], 'what': what, 'tier': tier, 'seed': seed})
-    shapes = [(1, 1), (1, 2), (2, 1), (2, 2), (1, 3), (3, 1), (2, 3), (3, 2)] + ([(3, 3), (2, 4), (4, 2), (1, 4), (4, 1)] if tier == 'thorough' else [])
+    shapes = [(1, 1), (1, 2), (2, 1), (2, 2), (1, 3), (3, 1), (2, 3), (3, 2), (1, 4), (4, 1)] + ([(3, 3), (2, 4), (4, 2)] if tier == 'thorough' else [])
     for (nx, ny) in shapes:
         out.append({'id': f'ruc-sym-{nx}x{ny}', 'kind': 'ruc_symbolic', 'shape': [nx, ny], 'tier': tier, 'seed': seed})
     for i, pat in enumerate(concrete_patterns(tier)):
@@ -77,11 +77,22 @@ def concrete_patterns(tier):
         q = [row[:] for row in p]
         q[-1][-1] = (q[-1][-1] + 1) % 4
         extra.append(q)
+    # impurity patterns: one / two cells of a valid pattern relabelled (a label then occurs >= 3 times with one deviating neighbourhood)
+    for (nx, ny) in ((3, 3), (2, 4), (4, 2), (3, 4), (4, 4), (1, 4), (2, 3)):
+        for base in ([[0] * ny for _ in range(nx)], [[(x + y) % 2 for y in range(ny)] for x in range(nx)]):
+            for (i, j) in [(0, 0), (nx // 2, ny // 2), (nx - 1, ny - 1), (nx - 1, 0), (nx // 2, 0)]:
+                q = [row[:] for row in base]
+                q[i][j] = 2
+                extra.append(q)
+                q2 = [row[:] for row in q]
+                q2[(i + 1) % nx][(j + 1) % ny] = 3
+                extra.append(q2)
     allp = []
     for p in pats + extra:
         if p not in allp:
             allp.append(p)
-    return allp if tier == 'thorough' else allp[::3]
+    imp = [p for p in allp if any(2 in row for row in p) and sum(row.count(0) for row in p) >= 3]
+    return allp if tier == 'thorough' else allp[::3] + [p for p in imp if p not in allp[::3]]
 
 
 def make_geom(g):
